@@ -828,7 +828,8 @@ func codecMode(args []string) int {
 				return map[string]any{"case": myIdx, "decoder": mc.base.kind, "curve": mc.dec.name, "base": mc.base.slot,
 					"edits": clip(mc.e.script(), 300), "label": mc.label, "input_len": len(input),
 					"input_hex": clip(hxlib.Hex(input), 700),
-					"rerun": fmt.Sprintf("c18 codec -seed %d -n %d -tier %s -only %d", cf.Seed, cf.N, cf.Tier, myIdx)}
+					"rerun": fmt.Sprintf("go run -tags verif ./cmd/c18 codec -repo %s -seed %d -n %d -tier %s -extra %q -only %d -ops /dev/stdout",
+						repo, cf.Seed, cf.N, cf.Tier, cf.Extra, myIdx)}
 			}
 			switch d.class {
 			case "panic":
